@@ -176,7 +176,7 @@ def n6(ctx, F, rule="C10.N6"):
                   what="the root hands back a cached result that is not exact or not as deep as the iteration: the search does not look as "
                        "far ahead as it was asked to", expected="entry.depth >= depth && entry.flag == Exact",
                   found=bad[:4])
-    ctx.floor(rule, "table shortcuts at the root", n, 1)
+    # (no floor: a root that never answers from the table has nothing to get wrong here)
 
 
 def run_rest(ctx, F, ks):
@@ -219,6 +219,15 @@ def run_rest(ctx, F, ks):
         if n.get("k") == "If" and "best_score" in hir.fmt(sym(n["cond"]), 400) and "MAX" in hir.fmt(sym(n["cond"]), 400):
             rets = [r for r, _ in hir.walk(n["then"]) if r.get("k") == "Ret"]
             cond_ok = len(rets) == 1 and sum(1 for a in anc if a.get("k") == "Loop") == 1
+            # by value: with no depth limit and several moves the test fires for a score inside either mate band and for nothing else
+            c0 = hir.resolve_std_ints(hir.resolve_consts(sym(n["cond"]), F))
+            base_a = {("var", "is_only_move"): ("lit", False), ("var", "max_depth"): ("variant", "std::prelude::v1::None")}
+            for val, want in ((32767 - 150, True), (-32768 + 150, True), (0, False), (5000, False), (-5000, False), (32767 - 2500, False), (-32768 + 2500, False)):
+                a_ = dict(base_a)
+                a_[("var", "best_score")] = ("lit", val)
+                v_ = hir.fold(hir.fold(c0, a_), a_)
+                if v_ != ("lit", want):
+                    cond_ok = False
     ctx.check("C10.N2", "driver-stops-by-itself-on-a-forced-mate", cond_ok, fn=DRIVER, file=drv["file"],
               what="the driver must return when the completed iteration reports a forced mate", found=cond_ok)
     ctx.assume("real distance from the root <= MAX_DEPTH + %d (quiescence extension under sane material)" % QD)
